@@ -372,6 +372,9 @@ class Runner:
         if rng.random() < 0.3: st = 0
         if rng.random() < 0.3: en = None
         top = rng.random() < 0.6
+        self.do_apply(x, a, st, en, top)
+
+    def do_apply(self, x, a, st, en, top):
         ids = P.InIds()
         inp = self._inp = P.line('apply', P.e_astr(x, ids), P.e_sarg(a), P.e_optint(st), P.e_optint(en), P.e_bool(top))
         pre = O.Snap(x)
@@ -450,6 +453,9 @@ class Runner:
         st, en = self.bound(x), self.bound(x)
         if rng.random() < 0.3: st = 0
         if rng.random() < 0.3: en = None
+        self.do_remove(x, a, st, en)
+
+    def do_remove(self, x, a, st, en):
         ids = P.InIds()
         inp = self._inp = P.line('remove', P.e_astr(x, ids), P.e_optsarg(a), P.e_optint(st), P.e_optint(en))
         pre = O.Snap(x)
@@ -517,9 +523,11 @@ class Runner:
         rng = self.rng
         x = self.pick()
         a, b = self.bound(x), self.bound(x)
+        self.do_slice(x, a, b, rng.choice(['getitem', 'clip', 'getitem']), rng.random() < 0.5)
+
+    def do_slice(self, x, a, b, how, keep):
         ids = P.InIds()
         inp = self._inp = P.line('slice', P.e_astr(x, ids), P.e_optint(a), P.e_optint(b))
-        how = rng.choice(['getitem', 'clip', 'getitem'])
         pre = O.Snap(x, with_render=False)
         out, fv = self.framed([], lambda: self.call(lambda: x[a:b] if how == 'getitem' else x.clip(a, b)))
         self.count('slice', out)
@@ -528,7 +536,7 @@ class Runner:
             y = out[1]
             viol += self.oracle_slice(pre, y, a, b)
             viol += self.health(y, 'slice')
-            if rng.random() < 0.5:
+            if keep:
                 self.add_live(y)
         self.emit('slice', inp, self.outcome_line(out, P.ok_astr), '%s[%r:%r] of %r' % (how, a, b, x._s), viol)
 
@@ -731,6 +739,9 @@ class Runner:
         fill = rng.choice([' ', ':', '+', '-', '0', '7', '*', '', 'ab']) if rng.random() < 0.9 else 'é'
         ext = rng.random() < 0.6
         inplace = rng.random() < 0.4
+        self.do_pad(x, kind, w, fill, ext, inplace, rng.random() < 0.6)
+
+    def do_pad(self, x, kind, w, fill, ext, inplace, keep):
         ids = P.InIds()
         if kind == 'zfill':
             inp = self._inp = P.line('zfill', P.e_astr(x, ids), P.e_int(w))
@@ -749,7 +760,7 @@ class Runner:
                 viol.append(('C08', 'inplace_returns_self', kind))
             viol += self.oracle_pad(pre, y, kind, w, fill, ext)
             viol += self.health(y, kind)
-            if not inplace and rng.random() < 0.6:
+            if not inplace and keep:
                 self.add_live(y)
         self.emit(kind, inp, self.outcome_line(out, P.ok_astr), '%s(%r,%r,ext=%r,inplace=%r) on %r' % (kind, w, fill, ext, inplace, pre.text), viol)
 
@@ -884,6 +895,9 @@ class Runner:
         if rng.random() < 0.4: st = 0
         if rng.random() < 0.4: en = None
         rev = rng.random() < 0.35
+        self.do_find(x, a, st, en, rev)
+
+    def do_find(self, x, a, st, en, rev):
         ids = P.InIds()
         inp = self._inp = P.line('find', P.e_astr(x, ids), P.e_sarg(a), P.e_optint(st), P.e_optint(en), P.e_bool(rev))
         arg = P.build_sarg(a, self.mod)
@@ -1460,6 +1474,56 @@ class Runner:
                 self.stats['text_len'][len(v._s)] = self.stats['text_len'].get(len(v._s), 0) + 1
         for k, st in enumerate(self.steps[start:]):
             st.hist, st.idx = hidx, k
+
+def exhaustive(runner, family, nbases=120):
+    """Small-scope exhaustive enumeration for one op family: text 'abcd', settings {red, blue, bold},
+    every bound in [-5, 5] ∪ {None}; bases = the plain text, all single applications on a coarse grid and
+    `nbases` random two-/three-step values."""
+    A = runner.A
+    rng = runner.rng
+    bounds = [None] + list(range(-5, 6))
+    setts = [('member', 'RED'), ('member', 'BLUE'), ('member', 'BOLD')]
+    def base():
+        x = A('abcd')
+        for _ in range(rng.randint(1, 3)):
+            x.apply_formatting(rng.choice(['red', 'blue', 'bold']), rng.choice(bounds) or 0, rng.choice(bounds), rng.random() < 0.7)
+        if rng.random() < 0.3:
+            x.remove_formatting(rng.choice(['red', 'blue', 'bold', None]), rng.choice(bounds) or 0, rng.choice(bounds))
+        return x
+    bases = [A('abcd'), A('abcd', 'red'), A('abcd', 'red', 'blue')] + [base() for _ in range(nbases)]
+    runner.live = []
+    for x in bases:
+        runner.live = [x]
+        runner.tainted = False
+        if family == 'slice':
+            for a in bounds:
+                for b in bounds:
+                    runner.do_slice(x, a, b, 'getitem', False)
+        elif family == 'apply':
+            for a in bounds[::2] if len(bases) > 60 else bounds:
+                for b in bounds:
+                    for top in (True, False):
+                        y = x.copy(); runner.live = [y]
+                        runner.do_apply(y, setts[(hash((a, b)) % 3)], a, b, top)
+        elif family == 'remove':
+            for a in bounds:
+                for b in bounds:
+                    y = x.copy(); runner.live = [y]
+                    runner.do_remove(y, rng.choice([None, ('obj', '31'), ('obj', '34'), ('obj', '1'), ('list', [('obj', '31'), ('obj', '1')])]), a, b)
+        elif family == 'find':
+            for a in bounds:
+                for b in bounds:
+                    runner.do_find(x, rng.choice([('obj', '31'), ('obj', '34'), ('obj', '1'), ('list', [('obj', '31'), ('obj', '1')])]), a, b, rng.random() < 0.4)
+        elif family == 'pad':
+            for kind in ('ljust', 'rjust', 'center'):
+                for w in range(0, 10):
+                    for ext in (True, False):
+                        runner.do_pad(x, kind, w, '*', ext, False, False)
+        if runner.tainted:
+            break
+    for k, st in enumerate(runner.steps):
+        if st.hist is None:
+            st.hist, st.idx = -3, k
 
 def a_truthy(a):
     t = a[0]
